@@ -28,7 +28,7 @@ AdmitChecks(e) ==
       \* the facts read back must be the facts of the requested cell, otherwise the harness did not build what TLC asked for
       \cup NameIf(Defects(f) = ToSet(e.want.defects) /\ Outcome(f) = e.want.outcome, "DriftRealisation")
       \cup NameIf(o.parsed => (ImplAdmit(f) = o.poolerr), "DriftErrorClass")
-      \cup NameIf(Outcome(f) = "open" => o.inpool = (f.recvslack >= 0), "DriftOpenCell")
+      \cup NameIf(Outcome(f) = "open" /\ o.parsed => o.inpool = (f.recvslack >= 0), "DriftOpenCell")
       \* the fee calculator, the calculatenetworkfee logic (run the witness, take the gas) and the node's attribute fees agree
       \cup NameIf(f.form = "ok" => f.feesources, "DriftFeeSources")
 
